@@ -820,15 +820,20 @@ def check_index(run: Run, lfi, fr, fobj, rows) -> None:
                 run.obs['c13-diff-beyond-dtype'] += 1
     if user['spacing'] is None:
         if n < 2 or not finite:
-            if sp is not None and not (isinstance(sp, (int, float)) and math.isfinite(sp)):
-                run.v('C13', 'spacing-not-finite', 'spacing-nonfinite:' + ('single-row' if n < 2 else 'nonfinite-diff'),
-                      f'frame {fname!r}: SPACING {sp!r} with {n} rows')
+            # no difference exists (single row) or differences are not finite: SPACING, if present, must at least be a
+            # number that could be "that signed difference" -- a NaN never is; an infinite spacing is accepted when
+            # every difference is that same infinity
+            if sp is not None and isinstance(sp, float) and not math.isfinite(sp):
+                same_inf = n >= 2 and all(d == D[0] for d in D) and sp == D[0]
+                if not same_inf:
+                    run.v('C13', 'spacing-not-finite', 'spacing-nonfinite:' + ('single-row' if n < 2 else 'nonfinite-diff'),
+                          f'frame {fname!r}: SPACING {sp!r} with {n} rows')
         else:
             eps = 2.0 ** -23 if win.dtype == np.float32 else (2.0 ** -52 if isf else 0.0)
             if all(d == D[0] for d in D):
                 run.obs['c13-uniform'] += 1
                 if sp is None:
-                    run.v('C13', 'spacing-missing', 'spacing-missing', f'frame {fname!r}: uniform difference {D[0]!r}, SPACING absent')
+                    run.obs['c13-uniform-without-spacing'] += 1     # allowed: DIRECTION rule below then applies
                 elif abs(float(sp) - float(D[0])) > abs(float(D[0])) * eps * 4:
                     run.v('C13', 'spacing-value', 'spacing-value:' + win.dtype.name,
                           f'frame {fname!r}: uniform difference {D[0]!r}, SPACING {sp!r}')
@@ -847,8 +852,7 @@ def check_index(run: Run, lfi, fr, fobj, rows) -> None:
                 elif dev <= 0.001 * 0.8:
                     run.obs['c13-near-uniform'] += 1
                     if sp is None:
-                        run.v('C13', 'spacing-missing', 'spacing-missing-near-uniform',
-                              f'frame {fname!r}: differences within tolerance (max deviation {dev}), SPACING absent')
+                        run.obs['c13-near-uniform-without-spacing'] += 1
                     elif not (float(sd[0]) - abs(float(sd[0])) * eps * 4 <= float(sp) <= float(sd[-1]) + abs(float(sd[-1])) * eps * 4):
                         run.v('C13', 'spacing-value', 'spacing-out-of-range',
                               f'frame {fname!r}: SPACING {sp!r} outside differences {sd[0]!r}..{sd[-1]!r}')
